@@ -764,7 +764,7 @@ def probe_unregistered_status() -> bool:
 PROBES = {"unregistered_status": probe_unregistered_status}
 
 
-def run(family: str, skeleton: str, prefixes: list[str], include_unregistered: bool = False, timeout: int = 90, config: dict | None = None, known: list | None = None, tier: str = "quick", parallel: int = 8, replay_func: str = "vlib.e3:replay", bounds: dict | None = None, **_: object) -> dict:
+def run(family: str, skeleton: str, prefixes: list[str], include_unregistered: bool = False, finding_by_func: dict | None = None, timeout: int = 90, config: dict | None = None, known: list | None = None, tier: str = "quick", parallel: int = 8, replay_func: str = "vlib.e3:replay", bounds: dict | None = None, **_: object) -> dict:
     """One obligation = one skeleton document: regenerate the client with the real generator, build the schema-directed
     harness, run every condition whose name starts with one of `prefixes` under CrossHair."""
     import time
@@ -804,11 +804,18 @@ def run(family: str, skeleton: str, prefixes: list[str], include_unregistered: b
         hp.write_text(src)
         t0 = time.time()
         recs = xh.check_file(hp, funcs, timeout, [str(root)], parallel=parallel)
-        res = xh.summarize(recs, hp, replay_func, what_prefix=f"{skeleton}/")
+        fb = finding_by_func or {}
+        known_ids = {e["id"] for e in known}
+
+        def classify(rec: dict):
+            kid = fb.get(rec["func"])
+            return kid if kid in known_ids else None
+
+        res = xh.summarize(recs, hp, replay_func, what_prefix=f"{skeleton}/", classify=classify)
         for w in res["witnesses"]:
             w["skeleton"], w["family"], w["config"], w["harness_src"] = skeleton, family, config, src
             keep = keep or False
-        res["known_hits"] = sorted({e["id"] for e in live})
+        res["known_hits"] = sorted({e["id"] for e in live} | set(res.get("known_hits", [])))
         res["bounds"] = {"document": f"skeleton '{skeleton}' ({family})", "strings": f"len <= {4 if thorough else 3}", "lists": "<= 2", "nesting": 2 if thorough else 1, "per_condition_timeout_s": timeout, "config": config, **(bounds or {})}
         res["functions"] = [fingerprint(REPO / "openapi_python_client" / "templates" / t) for t in ("model.py.jinja", "endpoint_module.py.jinja", "endpoint_macros.py.jinja")] + [fingerprint(p) for p in sorted((REPO / "openapi_python_client" / "templates" / "property_templates").glob("*.jinja"))]
         res["stubs"] = [
